@@ -72,7 +72,8 @@ let run_family st ct ops obs =
   let (s, _) = parse_sess st in
   let (imp, exp) = (match String.split_on_char '|' (String.sub ct 1 (String.length ct - 1)) with
     | [i; e] -> (parse_chain i, parse_chain e) | _ -> failwith "bad chains") in
-  let fam = ref { fam_imp = imp; fam_exp = exp } and a = ref (init exp) in
+  let start_down = (match ops with "Z" :: _ -> true | _ -> false) in
+  let fam = ref { fam_imp = imp; fam_exp = exp; fam_up = not start_down } and a = ref (init exp) in
   let bad = ref None in
   List.iteri (fun i optok ->
     if !bad = None then begin
@@ -94,9 +95,12 @@ let run_family st ct ops obs =
          | 'e' ->
            let (f', a') = fam_replace_export s (!fam, !a) (parse_chain body) (parse_view view) in
            fam := f'; a := a'
+         | 'D' -> fam := fam_dispose !fam; a := init !fam.fam_exp
+         | 'U' -> if not !fam.fam_up then begin
+             let (f', a') = fam_init_export s !fam (parse_view view) in fam := f'; a := a' end
          | _ -> ());
         if !bad = None then begin
-          let mo = print_sorted !a.tbl in
+          let mo = if !fam.fam_up then print_sorted !a.tbl else "-" in
           if mo <> ta then bad := Some (i, "adj-rib-out " ^ mo, "adj-rib-out " ^ ta)
         end
       | _ -> bad := Some (i, "<unparsable observation>", o)
